@@ -72,7 +72,7 @@ fn params_for(rng: &mut Rng) -> Parameters {
     p
 }
 
-struct ObsRun { inst: Inst, model: String, restarts: usize }
+struct ObsRun { inst: Inst, model: String, restarts: usize, calls: usize }
 impl ObsRun {
     async fn exec(&mut self, api: &str, text: &str) -> (i64, i64, i64) {
         if !self.inst.healthy { let m = self.model.clone(); let old = std::mem::replace(&mut self.inst, Inst::start(&m).await); old.close(); self.restarts += 1; }
@@ -88,7 +88,9 @@ impl ObsRun {
             "paramsjson" => sync_call(std::panic::AssertUnwindSafe(|| Parameters::from_json(text))),
             _ => panic!("unknown api {}", api),
         };
-        let p = self.inst.probe(true).await as i64;
+        // the probe always reads; it also writes on every 8th input and after any abnormal outcome
+        self.calls += 1;
+        let p = self.inst.probe(self.calls % 8 == 0 || o >= 2 || panics() > before).await as i64;
         let d = (panics() - before) as i64;
         if d > 0 || p == 0 || o >= 2 { self.inst.healthy = false; }
         (o, d, p)
@@ -140,7 +142,7 @@ fn bincode_probe(ty: u64, bytes: &[u8]) -> i64 {
 /// inputs kept from earlier failures and the witnesses of the listed classes: replayed first
 pub async fn replay_corpus(out: &mut Out) {
     let model = obs_model();
-    let mut run = ObsRun { inst: Inst::start(&model).await, model: model.clone(), restarts: 0 };
+    let mut run = ObsRun { inst: Inst::start(&model).await, model: model.clone(), restarts: 0, calls: 0 };
     // ---- corpus first (inputs kept from earlier failures; entries carrying a model term are
     //      the witnesses of the listed classes and are judged against the model)
     let mut entries: Vec<std::path::PathBuf> = std::fs::read_dir(CORPUS).map(|d| d.flatten().map(|e| e.path()).filter(|p| p.extension().map(|e| e == "json").unwrap_or(false)).collect()).unwrap_or_default();
@@ -194,7 +196,7 @@ pub async fn replay_corpus(out: &mut Out) {
 
 pub async fn observed_streams(rng: &mut Rng, out: &mut Out, stats: &mut serde_json::Map<String, serde_json::Value>) {
     let model = obs_model();
-    let mut run = ObsRun { inst: Inst::start(&model).await, model: model.clone(), restarts: 0 };
+    let mut run = ObsRun { inst: Inst::start(&model).await, model: model.clone(), restarts: 0, calls: 0 };
     run.inst.app.mutate(BASE_MUTATIONS[0], None).await.unwrap();
     let mut accepted = [0usize; 8]; let mut total = [0usize; 8];
 
@@ -260,7 +262,7 @@ pub async fn observed_streams(rng: &mut Rng, out: &mut Out, stats: &mut serde_js
             Row::NodeDel(mut d) => { what = "delete_nodes"; d.room_id = rid; o = call(run.inst.app.delete_nodes(vec![d])).await; }
             Row::EdgeDel(mut d) => { what = "delete_edges"; d.room_id = rid; o = call(run.inst.app.delete_edges(vec![d])).await; }
         }
-        let p = run.inst.probe(true).await as i64;
+        let p = run.inst.probe(total[6] % 4 == 0 || o >= 2).await as i64;
         let d = (panics() - before) as i64;
         total[6] += 1; if o == 0 { accepted[6] += 1; }
         if d > 0 || p == 0 || o >= 2 { run.inst.healthy = false; }
